@@ -50,7 +50,8 @@ def build_vh(tags=("verif",), race=False):
         gm = open(os.path.join(harness, "go.mod")).read().replace("=> /repo", "=> " + REPO)
         open(os.path.join(harness, "go.mod"), "w").write(gm)
     shutil.copyfile(os.path.join(REPO, "go.sum"), os.path.join(harness, "go.sum"))
-    out = os.path.join(WORK, "bin", "vh-" + "-".join(tags) + ("-race" if race else ""))
+    final = os.path.join(WORK, "bin", "vh-" + "-".join(tags) + ("-race" if race else ""))
+    out = "%s.%d" % (final, os.getpid())   # built under a private name, then renamed: checks may run side by side
     cmd = ["go", "build", "-tags", " ".join(tags), "-o", out]
     if race:
         cmd.append("-race")
@@ -59,6 +60,8 @@ def build_vh(tags=("verif",), race=False):
     p = subprocess.run(cmd, cwd=harness, env=GOENV, stdout=subprocess.PIPE, stderr=subprocess.STDOUT, text=True)
     if p.returncode != 0:
         raise Inconclusive("harness build failed (does /repo compile with -tags %s?):\n%s" % (" ".join(tags), p.stdout[-3000:]))
+    os.replace(out, final)
+    out = final
     log("[build] %s in %.1fs" % (os.path.basename(out), time.time() - t0))
     _built[key] = out
     return out
